@@ -13,6 +13,7 @@ import json
 
 from .. import core
 from . import grp_common as G
+from . import mounts_rt, midrun_rt
 
 
 def cli_sample(ctx, eng, specs):
@@ -55,6 +56,12 @@ def run(ctx):
     cli_sample(ctx, eng, [G.gen_spec(ctx.rng.fork(), "C01", small=True) for _ in range(ctx.pick(16, 200))])
     # cache history at the CLI level ("with or without the hash cache"): stale entries after an in-place rewrite
     G.cache_history_check(ctx, eng, ctx.pick(8, 80))
+
+    # several file systems whose files share inode numbers (fresh tmpfs instances in a private mount namespace)
+    mounts_rt.colliding_inodes_check(ctx, ctx.pick(6, 60), completeness=False)
+
+    # an external writer hits a file at a precise point of a cached run; the next cached run must still be sound
+    midrun_rt.midrun_overwrite_check(ctx, ctx.pick(30, 400))
 
     # transform dimension: `$IN` temp copies with equal base names in several directories on a multi-threaded sequential pool,
     # and programs that fail (exit status / killed by a signal, with and without partial output) for some of the files
